@@ -23,6 +23,7 @@ pub mod dtls;
 pub mod sctp;
 pub mod media;
 pub mod sdp;
+pub mod dtlslive;
 
 // ---------------------------------------------------------------------------------------------
 // counting allocator
@@ -248,6 +249,7 @@ fn replay(case: &str) {
     if !done { done = sctp::replay_special(&mut run, stream, &args); }
     if !done { done = media::replay_special(&mut run, stream, &args); }
     if !done { done = sdp::replay_special(&mut run, stream, &args); }
+    if !done { done = dtlslive::replay_special(&mut run, stream, &args); }
     if !done { println!("unknown stream {stream}"); }
     for f in &run.fails { println!("ORACLE-FAIL {} :: {}", f.signature, f.detail); }
     let _ = std::fs::remove_dir_all("/tmp/c07-replay");
@@ -269,6 +271,7 @@ pub fn run(args: &Args) {
     sctp::special(&mut run, &mut rng.fork(), args.tier_thorough);
     media::special(&mut run, &mut rng.fork(), args.tier_thorough);
     sdp::special(&mut run, &mut rng.fork(), args.tier_thorough);
+    dtlslive::special(&mut run, &mut rng.fork(), args.tier_thorough);
     run.notes.insert("targets".into(), serde_json::json!(targets.iter().map(|t| t.stream).collect::<Vec<_>>()));
     run.notes.insert("type_sizes".into(), rtp::type_sizes());
     run.notes.insert("type_sizes_media".into(), media::type_sizes());
